@@ -159,7 +159,8 @@ GenNextS == /\ Len(fmt) < MaxLen
 (* Comment / GoDirective / Snippets: the whole (small) input space as initial states *)
 SeqsUpTo(S, n) == UNION {[1..k -> S] : k \in 0..n}
 
-GenInitC == api = "Comment" /\ fmt \in SeqsUpTo({97, 32, NL}, MaxLen) /\ args = <<>> /\ closed = FALSE
+(* the text is arbitrary: it includes the characters that mean something to the other rendering entry points (% @ ') *)
+GenInitC == api = "Comment" /\ fmt \in SeqsUpTo({97, 32, NL, 37, 64, 39}, MaxLen) /\ args = <<>> /\ closed = FALSE
 GenInitD == /\ api = "GoDirective"
             /\ fmt \in {<<>>, <<101, 109, 98, 101, 100>>}                       \* "" | "embed"
             /\ args \in SeqsUpTo({<<>>, <<120>>, <<121, 32, 122>>}, 3)          \* "" | "x" | "y z"
